@@ -476,8 +476,13 @@ impl Mon {
         }
     }
 
-    pub fn on_0rtt_rejected(&mut self, _ei: usize, _ch: usize, _pair: u64, _led: &mut Ledger) {
+    pub fn on_0rtt_rejected(&mut self, ei: usize, ch: usize, _pair: u64, _led: &mut Ledger) {
         self.cnt.inc("c17.rejected");
+        // the peer never saw the early flight: its limits apply to what is sent from now on
+        if let Some(cm) = self.conns.get_mut(&(ei, ch)) {
+            cm.sent_hi.clear();
+            cm.sent_total = 0;
+        }
     }
 
     pub fn on_drained_event(&mut self, ei: usize, ch: usize, conn: &Conn, now: u64, _led: &mut Ledger) {
